@@ -340,6 +340,28 @@ def direct(tname, table):
                              "coefficients gives %r" % (el.symbol, ch, jn, q, got, want), atom=el.symbol, charge=ch, Q=q,
                              observed=repr(got), expected=want)
                         break
+                # the whole grid at once, through one float64 array shared by all calls: the values are those of
+                # the scalar calls and the caller's array is left alone
+                import numpy as _np
+                if "QV" not in globals():
+                    globals()["QV"] = _np.array(QGRID, dtype=float)
+                gv = attempt(fn, QV)
+                if not _np.array_equal(QV, _np.array(QGRID, dtype=float)):
+                    fail("formfactor_argument", key, "%s.magnetic_ff[%d].%s_Q(Q) overwrote the caller's array Q: %r became %r"
+                         % (el.symbol, ch, jn, list(QGRID)[:4], QV.tolist()[:4]), atom=el.symbol, charge=ch)
+                    globals()["QV"] = _np.array(QGRID, dtype=float)
+                elif isinstance(gv, BaseException) or _np.shape(gv) != (len(QGRID),):
+                    fail("formfactor", key + "@vector", "%s.magnetic_ff[%d].%s_Q(array of %d) gives %r" % (el.symbol, ch, jn, len(QGRID), gv),
+                         atom=el.symbol, charge=ch)
+                else:
+                    for q, g in zip(QGRID, gv):
+                        s2 = (q / (4 * math.pi)) ** 2
+                        core_v = A * math.exp(-a * s2) + B * math.exp(-b * s2) + C * math.exp(-c * s2) + D
+                        want = core_v if jn in ("j0", "J") else s2 * core_v
+                        if not close(float(g), want, scale * (1 if jn in ("j0", "J") else max(s2, 1e-300)), 1e-11):
+                            fail("formfactor", "%s@vector Q=%g" % (key, q), "%s.magnetic_ff[%d].%s_Q(array)[Q=%g] is %r, the formula on "
+                                 "the table coefficients gives %r" % (el.symbol, ch, jn, q, float(g), want), atom=el.symbol, charge=ch, Q=q)
+                            break
                 at0 = attempt(fn, 0.0)
                 at0 = float(at0) if not isinstance(at0, BaseException) else at0
                 if jn == "j0" and not (isinstance(at0, float) and 0.995 <= at0 <= 1.005):
